@@ -427,6 +427,46 @@ func enumerate(shard, nshards int, yield func(Case)) {
 			}
 		}
 	}
+	// a schema that reaches itself through anyOf / oneOf (directly, or through another component), applied to
+	// a default or an example with a mismatch inside one of its members (a property, an array item) in an
+	// alternative that is tried before the one that closes the cycle
+	{
+		firsts := []string{
+			`{"type":"object","required":["v"],"properties":{"v":{"type":"integer"},"kids":{"type":"array","items":{"$ref":"#/components/schemas/Node"}}}}`,
+			`{"type":"object","properties":{"v":{"type":"integer"}},"additionalProperties":false}`,
+			`{"type":"array","items":{"type":"integer"}}`,
+			`{"type":"object","properties":{"o":{"type":"object","properties":{"deep":{"type":"boolean"}}}}}`,
+		}
+		vals := []string{`{"v":"no-int"}`, `{"v":1,"kids":[{"v":"no-int"}]}`, `["x",1]`, `{"o":{"deep":"no"}}`, `{"v":1}`, `"top-level-mismatch"`}
+		for fi, first := range firsts {
+			for vi, val := range vals {
+				for _, kw := range []string{"anyOf", "oneOf"} {
+					for _, via := range []bool{false, true} {
+						for _, ex := range []string{"default", "example"} {
+							idx++
+							if idx%nshards != shard {
+								continue
+							}
+							back := `{"$ref":"#/components/schemas/Node"}`
+							schemas := M{}
+							if via {
+								back = `{"$ref":"#/components/schemas/Wrap"}`
+								schemas["Wrap"] = jv.Parse(`{"` + kw + `":[{"type":"string","maxLength":1},{"$ref":"#/components/schemas/Node"}]}`)
+							}
+							schemas["Node"] = jv.Parse(`{"` + kw + `":[` + first + `,` + back + `]}`)
+							schemas["Holder"] = jv.Parse(`{"type":"object","properties":{"n":{"$ref":"#/components/schemas/Node"}},"` + ex + `":{"n":` + val + `}}`)
+							if (fi+vi)%2 == 0 {
+								// the same directly on the schema of the cycle
+								schemas["Node"].(M)[ex] = jv.Parse(val)
+							}
+							doc, _ := json.Marshal(M{"openapi": "3.0.3", "info": M{"title": "t", "version": "1"}, "paths": M{}, "components": M{"schemas": schemas}})
+							yield(Case{Files: map[string][]byte{"/w/root.json": doc}, Root: "/w/root.json", Entry: []string{"data", "datawithpath"}[(fi+vi)%2], VOpts: []int{0, 4, 8}[idx%3]})
+						}
+					}
+				}
+			}
+		}
+	}
 	// an external reference of every kind, from a document whose components section has none of that
 	// kind yet (nothing, or exactly one other kind): internalising has to create the map it files it under
 	{
